@@ -313,6 +313,7 @@ type recording struct {
 	final    *snapshot
 	sessions map[int]*cskit.SessionLog
 	stopped  bool
+	inner    xfs.FS // the filesystem the recorded run actually wrote to
 }
 
 func record(s *cskit.Script) *recording {
@@ -321,7 +322,7 @@ func record(s *cskit.Script) *recording {
 	// one channel at a time during garbage collection: the recorded log then holds each
 	// channel's compaction as one contiguous block (channel order is still map order)
 	e.ExtraOptions = []cesium.Option{cesium.WithGCConfig(cesium.GCConfig{Threshold: s.GCThreshold, TryInterval: 24 * time.Hour, MaxGoroutine: 1})}
-	rec := &recording{s: s, snaps: map[int]*snapshot{}}
+	rec := &recording{s: s, snaps: map[int]*snapshot{}, inner: rfs.Inner()}
 	created := map[uint32]bool{}
 	chanIdx := -1000
 	copyCreated := func() map[uint32]bool {
@@ -480,6 +481,16 @@ func one(h *harness.H, layer string, c int, maint bool) {
 	muts := rec.muts
 	h.Count("scripts_enumerated", 1)
 	h.Count("mutations_recorded", len(muts))
+	// self-check of the crash model's replay: the image rebuilt from the whole log must be
+	// byte-identical to the filesystem the recorded run wrote to (append-mode writes,
+	// truncate-and-rewrite, renames over existing files, recursive removes)
+	if full, err := recfs.Image(muts, len(muts), -1); err != nil {
+		h.Violation(layer, c, "c02:harness-image:-:replay-error@any", err.Error(), map[string]any{"script": s})
+	} else if d := treeDiff(rec.inner, full, "db"); d != "" {
+		h.Violation(layer, c, "c02:harness-image:-:replay-differs@any", d, map[string]any{"script": s})
+	} else {
+		h.Count("image_replays_identical_to_recorded_fs", 1)
+	}
 
 	// 3. enumerate crash points
 	prevIdx := -2000
@@ -811,18 +822,7 @@ func judge(s *cskit.Script, muts []recfs.Mutation, k, torn int, prev, after *sna
 // (26-byte records: start, end, file, offset, size; a trailing partial record is ignored,
 // as the engine does). Used only to describe the image in signatures.
 func storedDomains(img xfs.FS, key uint32) [][2]int64 {
-	p := fmt.Sprintf("db/%d/index.domain", key)
-	st, err := img.Stat(p)
-	if err != nil || st.Size() == 0 {
-		return nil
-	}
-	f, err := img.Open(p, os.O_RDONLY)
-	if err != nil {
-		return nil
-	}
-	defer func() { _ = f.Close() }()
-	b := make([]byte, st.Size())
-	_, _ = f.ReadAt(b, 0)
+	b := readAll(img, fmt.Sprintf("db/%d/index.domain", key))
 	var out [][2]int64
 	for i := 0; i+26 <= len(b); i += 26 {
 		out = append(out, [2]int64{int64(binary.LittleEndian.Uint64(b[i:])), int64(binary.LittleEndian.Uint64(b[i+8:]))})
@@ -861,6 +861,50 @@ func domainsAhead(img xfs.FS, key, ik uint32) bool {
 		}
 	}
 	return false
+}
+
+// treeDiff compares two filesystems below dir (names, kinds, file contents); "" when equal.
+func treeDiff(a, b xfs.FS, dir string) string {
+	la, errA := a.List(dir)
+	lb, errB := b.List(dir)
+	if errA != nil || errB != nil {
+		return fmt.Sprintf("list %s: %v / %v", dir, errA, errB)
+	}
+	if len(la) != len(lb) {
+		return fmt.Sprintf("%s: %d entries recorded, %d replayed", dir, len(la), len(lb))
+	}
+	for i := range la {
+		if la[i].Name() != lb[i].Name() || la[i].IsDir() != lb[i].IsDir() {
+			return fmt.Sprintf("%s: entry %q recorded, %q replayed", dir, la[i].Name(), lb[i].Name())
+		}
+		p := dir + "/" + la[i].Name()
+		if la[i].IsDir() {
+			if d := treeDiff(a, b, p); d != "" {
+				return d
+			}
+			continue
+		}
+		ba, bb := readAll(a, p), readAll(b, p)
+		if !bytes.Equal(ba, bb) {
+			return fmt.Sprintf("%s: %d bytes recorded, %d replayed, contents differ", p, len(ba), len(bb))
+		}
+	}
+	return ""
+}
+
+func readAll(fs xfs.FS, p string) []byte {
+	st, err := fs.Stat(p)
+	if err != nil || st.Size() == 0 {
+		return nil
+	}
+	f, err := fs.Open(p, os.O_RDONLY)
+	if err != nil {
+		return nil
+	}
+	defer func() { _ = f.Close() }()
+	b := make([]byte, st.Size())
+	_, _ = f.ReadAt(b, 0)
+	return b
 }
 
 // deletedUpTo reports whether (key, ts) lies in the range of a delete op with index <= upTo.
